@@ -48,7 +48,7 @@ def run(ctx):
         'Plus log-space typestate (E3) on every table the oracles return.')
     ctx.rule_text = 'one obligation per (required attribute, oracle class) pair, per documented oracle name, per returned table'
     ctx.trusted = ['a user-supplied oracle object (the non-string dispatch branch) is outside the check']
-    methods = repo.methods(LI, 'LocalInference')
+    methods = repo.nmethods(LI, 'LocalInference')
     setup = find_setup(repo, LI, 'LocalInference')
 
     # ---- dispatch: oracle name -> constructed class --------------------------------------
@@ -92,7 +92,7 @@ def run(ctx):
     # ---- provided, per class ------------------------------------------------------------------
     for cname, names in sorted(classes.items()):
         rel = resolve_class(repo, cname)
-        provided_m = repo.methods(rel, cname)
+        provided_m = repo.nmethods(rel, cname)
         da = definitely_assigned(repo, rel, cname)
         da |= {t.id for st in repo.cls(rel, cname).body if isinstance(st, ast.Assign) for t in st.targets if isinstance(t, ast.Name)}
         for attr, uses in sorted(required.items()):
@@ -127,7 +127,7 @@ def run(ctx):
     for rel, q in [('src/mbi/region_graph.py', 'RegionGraph.hazan_peng_shashua'),
                    ('src/mbi/region_graph.py', 'RegionGraph.generalized_belief_propagation'),
                    ('src/mbi/factor_graph.py', 'FactorGraph.clique_marginals')]:
-        fi = repo.func(rel, q)
+        fi = repo.nfunc(rel, q)
         an, n = LR.L1(ctx, fi)
         n_tables += LR.L2_container(ctx, fi, an, 'self.total')
     ctx.floor('oracle return constructions', n_tables, 3)
@@ -170,7 +170,7 @@ def check_feasibility(ctx, classes):
     repo = ctx.repo
     for cname in sorted(classes):
         rel = resolve_class(repo, cname)
-        fi = repo.methods(rel, cname).get('primal_feasibility')
+        fi = repo.nmethods(rel, cname).get('primal_feasibility')
         if fi is None:
             continue
         ctx.analysed(fi)
